@@ -383,6 +383,41 @@ def r6_memoised_results(ctx, modules=None):
     ctx.floor("memoised functions examined", n, 7 if modules is None else 0)
 
 
+def r9_mutable_defaults(ctx, modules=None):
+    """A default argument is evaluated once: a `{}` / `[]` / array default that is stored on the object, returned or written into is shared by every call (and every
+    object) that relied on the default: a write through one of them shows up in all the others."""
+    ix = ctx.index
+    n = 0
+    for fi in ix.all_functions():
+        if isinstance(fi.node, ast.Lambda) or "_legacy" in fi.module.name or (modules is not None and fi.module.name not in modules):
+            continue
+        a = fi.node.args
+        pos = a.posonlyargs + a.args
+        pairs = list(zip(pos[len(pos) - len(a.defaults):], a.defaults)) + [(p_, d) for p_, d in zip(a.kwonlyargs, a.kw_defaults) if d is not None]
+        for p_, d in pairs:
+            mutable = isinstance(d, (ast.Dict, ast.List, ast.Set)) or (isinstance(d, ast.Call) and u(d.func) in ("dict", "list", "set", "defaultdict", "np.array", "np.zeros", "np.empty", "bytearray"))
+            if not mutable:
+                continue
+            n += 1
+            name = p_.arg
+            escapes = []
+            for x in body_walk(fi.node):
+                if isinstance(x, ast.Assign) and isinstance(x.value, ast.Name) and x.value.id == name and any(isinstance(t, ast.Attribute) for t in x.targets):
+                    escapes.append(f"stored: {u(x)}")
+                elif isinstance(x, ast.Assign) and isinstance(x.targets[0], ast.Subscript) and u(x.targets[0].value) == name:
+                    escapes.append(f"written: {u(x)[:60]}")
+                elif isinstance(x, ast.AugAssign) and (u(x.target) == name or (isinstance(x.target, ast.Subscript) and u(x.target.value) == name)):
+                    escapes.append(f"written: {u(x)[:60]}")
+                elif isinstance(x, ast.Call) and isinstance(x.func, ast.Attribute) and u(x.func.value) == name and x.func.attr in ("update", "append", "extend", "add", "setdefault", "pop", "clear", "insert", "sort"):
+                    escapes.append(f"mutated: {u(x)[:60]}")
+                elif isinstance(x, ast.Return) and x.value is not None and u(x.value) == name:
+                    escapes.append("returned")
+            ctx.ob(fi.where, f"the mutable default of `{name}` ({u(d)[:30]}) is only read: it is not stored on the object, returned or written into (it would be shared by every "
+                   "call that relies on the default)", not escapes, "; ".join(escapes[:3]), key=f"C20-R9|mutable-default|{fi.module.name}|{fi.qualname}|{name}")
+    ctx.count("mutable default arguments examined", n)
+    ctx.ob("bionumpy", f"{n} mutable default arguments examined", True, "", key="C20-R9|scan")
+
+
 
 def _compaction_state(ctx):
     from .c04 import r2_aligned_stores      # writing a selection compacts the extractor in place: every table must end up consistent with the new buffer
@@ -406,5 +441,6 @@ RULES = [
     ("C20-R6", r6_memoised_results),
     ("C20-R7", _compaction_state),
     ("C20-R8", _copies_copy),
+    ("C20-R9", r9_mutable_defaults),
     ("C20-T1", _through_time),
 ]
